@@ -49,6 +49,10 @@ func (wp WithdrawFunds) Validate(ctx *action.Context, signedTx action.SignedTx) 
 	if currency.Name != withdrawFunds.WithdrawValue.Currency {
 		return false, errors.Wrap(action.ErrInvalidAmount, withdrawFunds.WithdrawValue.String())
 	}
+	// the amount must be a valid, non-negative amount of that currency
+	if !withdrawFunds.WithdrawValue.IsValid(ctx.Currencies) {
+		return false, errors.Wrap(action.ErrInvalidAmount, withdrawFunds.WithdrawValue.String())
+	}
 
 	//Check if fund funder address is valid oneLedger address
 	err = withdrawFunds.Funder.Err()
